@@ -111,6 +111,9 @@ pub enum RequestCreationError {
 
     /// Error while reading data from the socket during the creation of the `Request`.
     CreationIoError(IoError),
+
+    /// The client sent a `Content-Length` header that is not a plain decimal number.
+    InvalidContentLength,
 }
 
 impl From<IoError> for RequestCreationError {
@@ -155,10 +158,24 @@ where
         // header must be ignored (RFC2616 #4.4)
         None
     } else {
-        headers
+        match headers
             .iter()
             .find(|h: &&Header| h.field.equiv("Content-Length"))
-            .and_then(|h| FromStr::from_str(h.value.as_str()).ok())
+        {
+            None => None,
+            Some(h) => {
+                // only a plain decimal number is a length (RFC 7230 #3.3.2): a value we
+                // cannot represent must be refused, never treated as absent or guessed at
+                let value = h.value.as_str();
+                if value.is_empty() || !value.bytes().all(|b| b.is_ascii_digit()) {
+                    return Err(RequestCreationError::InvalidContentLength);
+                }
+                match FromStr::from_str(value) {
+                    Ok(length) => Some(length),
+                    Err(_) => return Err(RequestCreationError::InvalidContentLength),
+                }
+            }
+        }
     };
 
     // true if the client sent a `Expect: 100-continue` header
